@@ -79,7 +79,9 @@ def check_transform(ck):
             back = tr.deserialize(wf, x0)
             xr = ck.rng.integers(-20, 21, size=x0.shape).astype(float)
             new = tr.deserialize(wf, xr)
-            g = {k: ck.rng.integers(-5, 6, size=(2,) + np.shape(v)).astype(float) + (1j * ck.rng.integers(-5, 6, size=(2,) + np.shape(v)) if np.asarray(v).dtype == complex else 0) for k, v in params.items()}
+            # d ln Psi / dp is complex for a complex wave function even when the parameter itself is real-typed
+            cg = bool(ck.rng.random() < 0.7)
+            g = {k: ck.rng.integers(-5, 6, size=(2,) + np.shape(v)).astype(float) + (1j * ck.rng.integers(-5, 6, size=(2,) + np.shape(v)) if (cg or np.asarray(v).dtype == complex) else 0) for k, v in params.items()}
             G = tr.serialize_gradients(g)
             return tr, x0, back, xr, new, g, G
         ok, res = ck.guarded(run, "transform", S_LT, inp)
